@@ -32,7 +32,8 @@ fn ctx_for(p: &Prog) -> DapCtx<'_> {
     if fns.is_empty() {
         fns.push("emit".into());
     }
-    let insns = p.line_of("main.emit").map(|l| p.stmt_addrs(l)).unwrap_or_default().into_iter().take(1).collect();
+    // an instruction inside the loop (its header, reached on every iteration) when there is one
+    let insns = ["while", "main.emit"].iter().filter_map(|m| p.line_of(m)).map(|l| p.stmt_addrs(l)).find(|a| !a.is_empty()).unwrap_or_default().into_iter().filter(|a| p.in_trace(*a)).take(1).collect();
     DapCtx { p, lines, fns, insns }
 }
 
@@ -158,10 +159,10 @@ fn c13_oracle(cx: &DapCtx, before: &DModel, after: &mut DModel, sym: &Sym, obs: 
         }
     }
     for k in &after.insn_bps {
-        locs.push((cx.insns[*k as usize], None));
+        locs.push((cx.insns[*k as usize], after.insn_opt.map(|o| (200u8, o))));
     }
     // whether hit counters start again with a restarted process is not specified by the property
-    let has_hit_opts = after.line_bps.values().any(|o| matches!(o, BpOpt::Hit2 | BpOpt::HitGe2));
+    let has_hit_opts = after.line_bps.values().any(|o| matches!(o, BpOpt::Hit2 | BpOpt::HitGe2)) || matches!(after.insn_opt, Some(BpOpt::Hit2 | BpOpt::HitGe2));
     if matches!(sym, Sym::Restart) && has_hit_opts {
         after.hits.clear();
         after.hits_unknown = true;
@@ -212,6 +213,7 @@ fn c13_oracle(cx: &DapCtx, before: &DModel, after: &mut DModel, sym: &Sym, obs: 
             return "first-stop-after-restart".to_string();
         }
         match locs.iter().find(|l| l.0 == pc) {
+            Some((_, Some((200, _)))) => format!("instruction-breakpoint:{}", phase_name(after.insn_phase)),
             Some((_, Some(_))) => phase_name(after.line_phase).to_string(),
             Some((a, None)) if after.insn_bps.iter().any(|k| cx.insns[*k as usize] == *a) => phase_name(after.insn_phase).to_string(),
             Some((_, None)) => phase_name(after.fn_phase).to_string(),
@@ -280,6 +282,9 @@ pub fn part_c13(tier: Tier) -> Part {
     alphabet.push(Sym::SetFnBps(vec![0]));
     alphabet.push(Sym::SetInsnBps(vec![]));
     alphabet.push(Sym::SetInsnBps(vec![0]));
+    for o in [BpOpt::CondFalse, BpOpt::Hit2, BpOpt::Log] {
+        alphabet.push(Sym::SetInsnBpOpt(o));
+    }
     let cfg = DapCfg { prop: "C13", depth: if tier == Tier::Quick { 5 } else { 7 }, alphabet, wall: wall_cap(tier, 50, 3000), c13: true };
     part.bounds = json!({"symbols": cfg.alphabet.len(), "depth": cfg.depth, "wall_cap_s": cfg.wall.as_secs()});
     part.rule = "explicit-state search over histories of initialize/launch/configurationDone/continue/restart interleaved with setBreakpoints (subsets of 2 lines x 7 option kinds), setFunctionBreakpoints and setInstructionBreakpoints, each set-request tried before launch, before configurationDone, while stopped and after restart; after every resume the stop reported on the wire and the pc read from /proc must be the next arrival of the reference trace at a location of the LATEST sets, filtered by condition / hitCondition / logMessage semantics evaluated on the reference execution".into();
@@ -303,5 +308,103 @@ pub fn part_c13(tier: Tier) -> Part {
     }
     part.traces_validated = part.transitions;
     let _ = Duration::from_secs(0);
+    part
+}
+
+// ------------------------------------------------------------------------------------------ C05 over DAP
+
+/// Frame selection over DAP on a deep stack: every frame id of a 257-frame backtrace must select
+/// its own activation (scopes -> variables show that activation's argument).
+pub fn part_c05_dap_frames(tier: Tier) -> Part {
+    use crate::isession::ISession;
+    let mut part = Part::new("dap-frame-selection-deep-stack");
+    let depth: u8 = 255;
+    part.bounds = json!({"recursion_depth": depth, "frames": depth as u32 + 2, "frames_probed": if tier == Tier::Quick { 12 } else { 257 }});
+    part.rule = "a program recursing 255 deep is stopped in the innermost activation through the real DAP adapter; stackTrace must list the 256 activations of rec and main with pairwise distinct frame ids, and scopes + variables for the probed frame ids must show exactly that activation's argument n (frame k holds n = k; the last frame is main and has no n). Distinct non-trivial = frames probed".into();
+    let ps = match progs(vec![vec![Stmt::Rec(depth), Stmt::Assign]]) {
+        Ok(p) => p,
+        Err(e) => {
+            part.violate("C05:machinery:corpus", e, json!({}));
+            part.exhaustive = false;
+            return part;
+        }
+    };
+    let p = &ps[0];
+    let Some(line) = p.line_of("rec.2") else {
+        part.violate("C05:machinery:no-line", "rec.2".to_string(), json!({}));
+        return part;
+    };
+    let replay = json!({"engine":"c05-dap"});
+    let mut sess = match ISession::start("dap", &json!({"exe": p.built.exe, "main_entry_sp": p.trace.main_entry_sp})) {
+        Ok(s) => s,
+        Err(e) => {
+            part.violate("C05:machinery:worker", e, replay);
+            return part;
+        }
+    };
+    let mut seq = 0i64;
+    let mut send = |sess: &mut ISession, command: &str, args: Value| -> Result<Value, String> {
+        seq += 1;
+        let o = sess.cmd(&json!({"seq": seq, "type": "request", "command": command, "arguments": args}), Duration::from_secs(120)).map_err(|e| format!("{e:?}"))?;
+        let resp = o["wire"].as_array().and_then(|w| w.iter().find(|m| m["type"] == "response").cloned()).unwrap_or(Value::Null);
+        Ok(json!({"resp": resp, "wire": o["wire"]}))
+    };
+    let src = json!({"path": p.built.src_path, "name": p.built.program.src_file});
+    let run = (|| -> Result<(), String> {
+        send(&mut sess, "initialize", json!({"adapterID":"bsmc"}))?;
+        send(&mut sess, "launch", json!({"program": p.built.exe, "args": []}))?;
+        send(&mut sess, "setBreakpoints", json!({"source": src, "breakpoints": [{"line": line}]}))?;
+        let cd = send(&mut sess, "configurationDone", json!({}))?;
+        let tid = cd["wire"].as_array().and_then(|w| w.iter().find(|m| m["event"] == "stopped").and_then(|m| m["body"]["threadId"].as_i64())).ok_or("no stopped event")?;
+        let st = send(&mut sess, "stackTrace", json!({"threadId": tid}))?;
+        let frames = st["resp"]["body"]["stackFrames"].as_array().cloned().unwrap_or_default();
+        part.states = frames.len() as u64;
+        let names: Vec<String> = frames.iter().map(|f| f["name"].as_str().unwrap_or("?").to_string()).collect();
+        let want_frames = depth as usize + 2;
+        if frames.len() < want_frames || !names[..depth as usize + 1].iter().all(|n| n.ends_with("rec")) || !names[depth as usize + 1].ends_with("main") {
+            part.violate("C05:dap:stackTrace-wrong-chain", format!("[{}] {} frames; first {:?} .. last {:?}", p.name(), frames.len(), names.first(), names.get(depth as usize + 1)), replay.clone());
+        }
+        let ids: Vec<i64> = frames.iter().filter_map(|f| f["id"].as_i64()).collect();
+        let mut uniq = ids.clone();
+        uniq.sort();
+        uniq.dedup();
+        if uniq.len() != ids.len() {
+            part.violate("C05:dap:frame-ids-not-unique", format!("[{}] {} frames, {} distinct ids", p.name(), ids.len(), uniq.len()), replay.clone());
+        }
+        let probes: Vec<usize> = if tier == Tier::Quick { vec![0, 1, 2, 63, 64, 127, 128, 129, 254, 255, 256] } else { (0..want_frames).collect() };
+        for k in probes {
+            let Some(id) = ids.get(k) else { continue };
+            part.evaluations += 1;
+            part.distinct_nontrivial += 1;
+            let sc = send(&mut sess, "scopes", json!({"frameId": id}))?;
+            let scopes = sc["resp"]["body"]["scopes"].as_array().cloned().unwrap_or_default();
+            let mut vars: Vec<(String, String)> = vec![];
+            for s in &scopes {
+                if let Some(r) = s["variablesReference"].as_i64() {
+                    let vs = send(&mut sess, "variables", json!({"variablesReference": r}))?;
+                    for v in vs["resp"]["body"]["variables"].as_array().cloned().unwrap_or_default() {
+                        vars.push((v["name"].as_str().unwrap_or("?").to_string(), v["value"].as_str().unwrap_or("?").to_string()));
+                    }
+                }
+            }
+            let n = vars.iter().find(|(name, _)| name == "n").map(|(_, v)| v.clone());
+            if k <= depth as usize {
+                let want = k.to_string();
+                if n.as_deref().map(|v| v.contains(&want) && v.trim_start_matches(|c: char| !c.is_ascii_digit()).split(|c: char| !c.is_ascii_digit()).next() == Some(want.as_str())) != Some(true) {
+                    part.violate(format!("C05:dap:frame-selects-wrong-activation:{}", if k >= 256 { "index>=256" } else if k >= 128 { "index>=128" } else { "low-index" }), format!("[{}] frame #{k} (id {id}): n = {n:?}, this activation holds n = {k}; variables {:?}", p.name(), &vars[..vars.len().min(6)]), replay.clone());
+                }
+            } else if n.is_some() || !vars.iter().any(|(name, _)| name == "a") {
+                part.violate("C05:dap:frame-selects-wrong-activation:index>=256", format!("[{}] frame #{k} (id {id}) is main: expected its local `a` and no `n`, got {:?}", p.name(), &vars[..vars.len().min(6)]), replay.clone());
+            }
+        }
+        part.sample(json!({"program": p.name(), "frames": frames.len(), "first_ids": &ids[..ids.len().min(4)]}));
+        Ok(())
+    })();
+    if let Err(e) = run {
+        part.violate("C05:dap:session-failed", format!("[{}] {e}", p.name()), replay);
+    }
+    let _ = sess.end(Duration::from_secs(10));
+    part.transitions = part.evaluations;
+    part.traces_validated = 1;
     part
 }
